@@ -154,6 +154,11 @@ func (eng *Engine) VerifyFunc(c *FuncContract) (res *FuncResult) {
 			res.Unbound = append(res.Unbound, fmt.Sprintf("%s: anchored clause never matched: at %s %s #%d (%s:%d)", res.Name, a.AnchorKind, a.AnchorName, a.AnchorOrd, a.File, a.Line))
 		}
 	}
+	if len(res.Unbound) > 0 {
+		// a contract that can no longer be laid over the code decides nothing about it: no obligation of this
+		// function is claimed (UNDECIDED), none is reported as a violation
+		fc.obls = nil
+	}
 	for n := range c.Invariants {
 		if n > fc.loopOrd {
 			res.Unbound = append(res.Unbound, fmt.Sprintf("%s: invariant for loop %d but the function has %d loops", res.Name, n, fc.loopOrd))
